@@ -12,13 +12,19 @@ EXTENDS Match, TLC, Json
 
 CONSTANTS PoolSeq,      \* sequence of component names (canonical column order)
           MaxArch,      \* declarations have 1..MaxArch archetypes
-          MaxParams     \* parameter lists have 1..MaxParams parameters
+          MaxParams,    \* parameter lists have 1..MaxParams parameters
+          ColOrder      \* "canon": every archetype lists its columns in pool order;
+                        \* "mixed": even-numbered archetypes list them in REVERSE pool order, so
+                        \* that two archetypes hold the same components at different column
+                        \* positions and a parameter list is in column order for at most one
 
 ArchNames == <<"Aa", "Ab", "Ac">>
 Pool == Range(PoolSeq)
 CompSets == (SUBSET Pool) \ {{}}
 ColsOf(S) == SelectSeq(PoolSeq, LAMBDA c : c \in S)
-MkDecl(f) == [i \in DOMAIN f |-> [name |-> ArchNames[i], cols |-> ColsOf(f[i])]]
+Rev(sq) == [k \in DOMAIN sq |-> sq[Len(sq) + 1 - k]]
+MkDecl(f) == [i \in DOMAIN f |-> [name |-> ArchNames[i],
+                                   cols |-> IF ColOrder = "mixed" /\ i % 2 = 0 THEN Rev(ColsOf(f[i])) ELSE ColsOf(f[i])]]
 Decls == {MkDecl(f) : f \in UNION {[1..n -> CompSets] : n \in 1..MaxArch}}
 
 OneOfTuple(kind, S) == <<kind>> \o ColsOf(S)
